@@ -183,8 +183,9 @@ def run_history(calls, events, close_raises=False):
     out = []
     recorded = []                       # every message handed to record_error (observed on the instance, no change to the class)
     orig_record = obj.record_error
+    marks = []                          # number of writes made so far, at each record_error
     def spy(message):
-        recorded.append(message)
+        recorded.append(message); marks.append(len(fp.writes))
         return orig_record(message)
     obj.record_error = spy
     try:
@@ -202,6 +203,8 @@ def run_history(calls, events, close_raises=False):
                 writes.append(t[:-1] if t.endswith("\r") else t + "<noCR>")
             if raised is None and len(recorded) > before_r and obj.err is None:
                 raised = "RecordedErrorErased"          # an error was recorded during this call and is gone at its end
+            if raised is None and call[0] != "connect" and len(recorded) > before_r and len(fp.writes) > marks[before_r]:
+                raised = "WroteAfterRecordedError"      # the request recorded an error and went on transmitting (its later exchanges)
             out.append({"raised": raised, "ret": ret, "writes": writes, "err": err_kind(obj.err), "err_text": obj.err,
                         "port": obj.port is not None, "name": obj.name, "consumed": script.consumed - before_c,
                         "read_err": any("Err:" in l for l in fp.lines_read[before_l:])})
